@@ -219,7 +219,7 @@ class Ctx:
             k = x[0]
             if k == 'deref':
                 v = deref(v)
-                if isinstance(v, BoxV): v = v[0]
+                if isinstance(v, BoxV) and (len(x) < 2 or x[1] != 'ref'): v = v[0]
             elif k == 'field':
                 v = deref(v)
                 if isinstance(v, BoxV):
@@ -273,6 +273,8 @@ class Ctx:
             inner = self.read_place(fr, (b, pr[:-1]))
             if isinstance(inner, LRef):
                 return inner
+            if isinstance(inner, BoxV) and (len(pr[-1]) < 2 or pr[-1][1] != 'ref'):
+                return LRef(lambda: inner[0], lambda val: inner.__setitem__(0, val))
             # transparent reference to a compound value: aliasing object, whole-value store unsupported
             holder = {'v': inner}
 
@@ -330,6 +332,8 @@ class Ctx:
                 inner.set(val); return
             if isinstance(inner, BoxUninitV):
                 inner.value = val; return
+            if isinstance(inner, BoxV) and (len(pr[-1]) < 2 or pr[-1][1] != 'ref'):
+                inner[0] = val; return
             self.lvalue(fr, pl).set(val); return
         # a BoxUninit whose contents are written field-wise / as array
         self._store_proj(fr, (b, pr[:-1]), pr[-1], val)
@@ -703,9 +707,13 @@ class Ctx:
         m = self.models.lookup('*::' + meth if False else key, '')
         raise Unsupported(f'dynamic dispatch {key} on {type(deref(args[0])).__name__ if args else "()"} ({call.callee[:120]})')
 
-    def find_from_impl(self, target, argty):
+    def find_from_impl(self, target, argty, argty_full=None):
         """locate `impl From<argty> for target` among MIR bodies by signature"""
-        hits = []
+        def norm_full(t):
+            t = re.sub(r"'\w+\s*", '', t)
+            t = re.sub(r'\b(?:[a-z_0-9]+::)+', '', t)
+            return t.replace(' ', '')
+        hits = []; exact = []
         for name, f in self.prog.fns.items():
             if name.split('#')[0].endswith('::from') and '<impl at' in name:
                 sig = f.sig
@@ -714,6 +722,10 @@ class Ctx:
                 at = last_seg(strip_angle(m.group(1)).strip()); rt = last_seg(strip_angle(m.group(2)).strip())
                 if rt == target and (argty is None or at == argty):
                     hits.append(f)
+                    if argty_full is not None and norm_full(m.group(1)) == norm_full(argty_full):
+                        exact.append(f)
+        if len(exact) == 1:
+            return exact[0]
         return hits[0] if len(hits) == 1 else None
 
     def call_value(self, f, args):
@@ -1003,7 +1015,10 @@ def panic_msg(args):
         if isinstance(a, StrV):
             out.append(str_text(a))
         elif isinstance(a, Opaque) and a.t == 'fmtargs':
-            out.append(str(a.info))
+            if isinstance(a.info, list):
+                out.append(''.join(x[1].decode('utf-8', 'replace') if x[0] == 'lit' else '{}' for x in a.info))
+            else:
+                out.append(str(a.info))
     return '|'.join(out)[:80]
 
 
